@@ -56,6 +56,12 @@ ASSUMPTIONS = [
     "bad channels (labels 1/2) are generated farther than 100 um (header x/y, shank ignored as interpolate_bad_channels "
     "does) from any channel labelled 3 in the metamorphic test: the interpolation, not the spatial filter, reads "
     "3-labelled neighbours and the property only excludes them from the spatial filter",
+    "for LFP the stripe dies out inside the batch (Gaussian envelope, centre +- 3.5 sigma within the batch): the 0.5 Hz "
+    "corner of the LFP band-pass leaves channel-dependent edge transients of seconds when the batch cuts a running "
+    "stripe (17-35 dB measured); AP stripes may run through the batch edges (>= 58 dB measured)",
+    "in a destripe call whose label vector contains channels labelled 1/2 every attenuation failure is attributed to the "
+    "repair of those channels (kind C05.stripe_attenuation.interpolated): the residue sits on the rebuilt channels and "
+    "leaks through the k-filter into their neighbours; calls without such labels carry the plain kinds",
     "agc: epsilon > 0 (with epsilon = 0 a zero stretch gives gain 0 and 0/0)",
     "an upper bound on the kept spike amplitude is not asserted (the property states a lower bound); the maximum is "
     "reported as a margin",
